@@ -464,14 +464,14 @@ TokensOf(text) == Lex(text).toks
 (* The text uses only RFC 1035 master-file syntax: printable ASCII, tab and     *)
 (* line breaks; no raw control or non-ASCII octet; quotes and parentheses       *)
 (* balanced; backslash only as \X (X not a digit) or \DDD with DDD <= 255.       *)
-OnlyMasterSyntax(text) ==
+OnlyMasterSyntaxL(text, L) ==          \* L = Lex(text), computed once by the caller
   /\ \A i \in 1..Len(text) : text[i] = cTAB \/ text[i] = cLF \/ (text[i] >= 32 /\ text[i] <= 126)
-  /\ LET L == Lex(text) IN L.ill = "" /\ ~L.odd
+  /\ L.ill = "" /\ ~L.odd
+OnlyMasterSyntax(text) == OnlyMasterSyntaxL(text, Lex(text))
 
 TTLOctets(tok) == IF tok.q THEN Bad("ttl-quoted") ELSE DecOctets(tok.raw, 4)
 
-ReadRecord(text, hk) ==
-  LET L == Lex(text) IN
+ReadRecordL(L, hk) ==                  \* L = Lex(text)
   IF L.ill # "" THEN Bad("ill-formed-" \o L.ill)
   ELSE LET es == Entries(L.toks) IN
     IF Len(es) # 1 THEN Bad("not-one-entry")
@@ -494,6 +494,7 @@ ReadRecord(text, hk) ==
              IF ~rd.ok THEN Bad("rdata-" \o rd.why)
              ELSE [ok |-> TRUE, name |-> own.v, type |-> type, class |-> class, ttl |-> ttl.v, alts |-> rd.alts,
                    amb |-> L.amb]
+ReadRecord(text, hk) == ReadRecordL(Lex(text), hk)
 
 -----------------------------------------------------------------------------
 (* AMBIG: fields whose RFC restricts the alphabet or the range.  The property   *)
@@ -510,11 +511,21 @@ FloatText(s) ==
   /\ Len(parts) \in {1, 2}
   /\ \A i \in 1..Len(parts) : Digits1(parts[i])
 LeOct(a, b) == a = b \/ LexLess(a, b)
-LocOK(rd) ==      \* RFC 1876 s.2: version 0; size / precision: two BCD-like nibbles 0..9; latitude within 90, longitude within 180 degrees
+(* RFC 1876 s.2: version 0; size / precision: base and exponent 0..9 each; latitude within 90, longitude   *)
+(* within 180 degrees.  A zero base with a non-zero exponent is a second spelling of 0 cm: the text "0m"  *)
+(* cannot say which one was meant (\* AMBIG: the RFC does not forbid it, no text form distinguishes it).   *)
+LocOK(rd) ==
   /\ Len(rd) = 16 /\ rd[1] = 0
-  /\ \A i \in 2..4 : rd[i] \div 16 <= 9 /\ rd[i] % 16 <= 9
+  /\ \A i \in 2..4 : rd[i] \div 16 <= 9 /\ rd[i] % 16 <= 9 /\ (rd[i] \div 16 = 0 => rd[i] = 0)
   /\ LeOct(<<108, 176, 39, 0>>, Sub(rd, 5, 8)) /\ LeOct(Sub(rd, 5, 8), <<147, 79, 217, 0>>)
   /\ LeOct(<<89, 96, 78, 0>>, Sub(rd, 9, 12)) /\ LeOct(Sub(rd, 9, 12), <<166, 159, 178, 0>>)
+
+\* RFC 9460 s.8: the value of "mandatory" lists one or more keys
+RECURSIVE SvcParamsOK(_, _)
+SvcParamsOK(rd, off) ==
+  IF off + 4 > Len(rd) THEN TRUE
+  ELSE LET k == rd[off + 1] * 256 + rd[off + 2]  n == rd[off + 3] * 256 + rd[off + 4] IN
+       (k = 0 => n >= 2) /\ SvcParamsOK(rd, off + 4 + n)
 
 InAlphabet(t, rd) ==
   CASE t = 19  -> LET d == DecRdata(19, rd) IN d.ok /\ Digits1(d.f.PSDNAddress)                 \* RFC 1183 s.3.1: numeric string
@@ -523,5 +534,6 @@ InAlphabet(t, rd) ==
     [] t = 29  -> LocOK(rd)
     [] t = 50  -> Len(rd) >= 5 /\ Len(rd) >= 6 + rd[5] /\ rd[6 + rd[5]] >= 1                     \* RFC 5155 s.3.2: hash length 1..255
     [] t = 55  -> Len(rd) >= 4 /\ rd[1] >= 1 /\ rd[3] * 256 + rd[4] >= 1                        \* RFC 8005 s.5: a HIT and a key
+    [] t \in {64, 65} -> LET d == DecName(rd, 2) IN d.ok /\ SvcParamsOK(rd, d.next)
     [] OTHER   -> TRUE
 =============================================================================
